@@ -53,3 +53,12 @@ func (c *cmem) free() {
 	syscall.Mprotect(c.mapping, syscall.PROT_READ|syscall.PROT_WRITE)
 	syscall.Munmap(c.mapping)
 }
+
+// CMem is the exported handle on a float64 buffer outside the Go heap whose end is flush against
+// an inaccessible page.
+type CMem struct{ c *cmem }
+
+func NewCMem(vals []float64) *CMem  { return &CMem{newCMem(vals)} }
+func (m *CMem) Ptr() unsafe.Pointer { return m.c.ptr() }
+func (m *CMem) Read() []float64     { return m.c.read() }
+func (m *CMem) Free()               { m.c.free() }
